@@ -31,7 +31,8 @@ def atoms():
         ("gt", A, K), ("eq", A, B), ("le", ("add", A, B), M), ("ne", ("neg", A), K), ("lt", B, ("mul", A, ("lit", 2))),
         ("ge", ("sub", A, K), B),
         ("inseq", B, (A, K)), ("inseq", A, ()), ("inseq", A, (("lit", 1), ("lit", 1), B)),
-        ("inrange", A, 1, 6, 2), ("inrange", ("add", A, B), 0, 4, 1),
+        ("inrange", A, 1, 6, 2), ("inrange", ("add", A, B), 0, 4, 1), ("inrange", A, 5, 0, -1), ("inrange", B, 6, -2, -3),
+        ("inrange", A, 3, 3, 1), ("inrange", A, 2, 5, -1),
     ]
 
 
